@@ -317,3 +317,8 @@ package router
 //@   may-panic when true
 //@   assigns \nothing
 //@   ensures ret1 == nil && 0 <= ret0 && ret0 < m.ShardNum
+//@ property C10: includeSlice
+//@ func includeSlice
+//@   assigns \nothing
+//@   loop 0 invariant forall(k, 0, rangeindex + 1, slices[k] != sliceName)
+//@   ensures ret0 <==> exists(k, 0, len(slices), slices[k] == sliceName)
